@@ -16,6 +16,7 @@ import (
 	"net/http"
 	"net/http/httptest"
 	gos "os"
+	"slices"
 	"sort"
 	"strings"
 	gotime "time"
@@ -37,21 +38,40 @@ type z15Srv struct {
 	w        *z15World
 }
 
-func (s *z15Srv) Ping(ctx gocontext.Context) error { mcrt.Yield("mock.Ping"); return nil }
+func (s *z15Srv) Ping(ctx gocontext.Context) error {
+	s.w.mockPoint("Ping")
+	mcrt.Yield("mock.Ping")
+	s.w.mockPoint("Ping returns")
+	return nil
+}
 func (s *z15Srv) WaitUntilRunning(ctx gocontext.Context) error {
+	s.w.mockPoint("WaitUntilRunning")
 	mcrt.Yield("mock.WaitUntilRunning")
 	if s.w.loadFail {
 		return errors.New("runner process died while loading")
 	}
-	return ctx.Err()
+	err := ctx.Err()
+	s.w.mockPoint("WaitUntilRunning returns")
+	return err
 }
 func (s *z15Srv) Completion(ctx gocontext.Context, req llm.CompletionRequest, fn func(llm.CompletionResponse)) error {
 	if s.closedAt != 0 {
 		mcrt.Fail("C15: completion-on-closed-runner: a request runs on runner %s after it was shut down", s.name)
 	}
+	s.w.mockPoint("Completion")
 	mcrt.Yield("mock.Completion")
+	if strings.Contains(req.Prompt, "long") {
+		// a generation that takes longer than any load or keep-alive period (virtual time)
+		mcrt.Sleep(6 * gotime.Minute)
+	}
+	if s.closedAt != 0 && ctx.Err() == nil {
+		mcrt.Fail("C15: closed-in-use: runner %s was shut down while a request that has not ended was running on it", s.name)
+	}
 	fn(llm.CompletionResponse{Content: "hi"})
 	mcrt.Yield("mock.Completion")
+	if s.closedAt != 0 && ctx.Err() == nil {
+		mcrt.Fail("C15: closed-in-use: runner %s was shut down while a request that has not ended was running on it", s.name)
+	}
 	fn(llm.CompletionResponse{Done: true, DoneReason: llm.DoneReasonStop, PromptEvalCount: 1, EvalCount: 1})
 	return nil
 }
@@ -84,6 +104,14 @@ type z15World struct {
 	stop    func()
 	// loadFail: every runner started from now on dies while loading (WaitUntilRunning reports an error)
 	loadFail bool
+	// onMock: called by the mock runner before and after its calls (a client that goes away exactly there)
+	onMock func(label string)
+}
+
+func (w *z15World) mockPoint(label string) {
+	if w.onMock != nil {
+		w.onMock("runner." + label)
+	}
 }
 
 func (w *z15World) call(method, path string, body any) (int, string) {
@@ -139,7 +167,8 @@ func (w *z15World) callGone(method, path string, body any, late bool) (int, stri
 				cancel()
 			}
 		}
-		defer func() { w.srv.OnNetPoint = nil }()
+		w.onMock = w.srv.OnNetPoint
+		defer func() { w.srv.OnNetPoint, w.onMock = nil, nil }()
 	}
 	req := httptest.NewRequest(method, path, rd).WithContext(ctx)
 	rec := httptest.NewRecorder()
@@ -166,9 +195,16 @@ func (w *z15World) do(q z15Req) {
 		code, body = w.call("POST", "/api/generate", api.GenerateRequest{Model: q.A, Prompt: "hello", Stream: &z15Stream})
 	case "generate0":
 		code, body = w.call("POST", "/api/generate", api.GenerateRequest{Model: q.A, Prompt: "hello", Stream: &z15Stream, KeepAlive: &api.Duration{Duration: 0}})
+	case "generate-long":
+		code, body = w.call("POST", "/api/generate", api.GenerateRequest{Model: q.A, Prompt: "hello long", Stream: &z15Stream})
+	case "generate0-long":
+		code, body = w.call("POST", "/api/generate", api.GenerateRequest{Model: q.A, Prompt: "hello long", Stream: &z15Stream, KeepAlive: &api.Duration{Duration: 0}})
 	case "generate0-gone":
 		// keep_alive 0 and a client that goes away while the request is being served
 		code, body = w.callGone("POST", "/api/generate", api.GenerateRequest{Model: q.A, Prompt: "hello", Stream: &z15Stream, KeepAlive: &api.Duration{Duration: 0}}, false)
+	case "generate-gone-late":
+		// the client goes away exactly before or after one of the runner's calls (one deviation wherever it falls)
+		code, body = w.callGone("POST", "/api/generate", api.GenerateRequest{Model: q.A, Prompt: "hello", Stream: &z15Stream}, true)
 	case "generate-gone":
 		code, body = w.callGone("POST", "/api/generate", api.GenerateRequest{Model: q.A, Prompt: "hello", Stream: &z15Stream}, false)
 	case "chat":
@@ -349,11 +385,31 @@ func z15Body(sc z15Scenario) func() {
 			})
 		}
 		wg.Wait()
+		mcrt.Observe("all requests returned")
+		if z15Drain {
+			// all requests have finished: once their keep-alive periods have elapsed every runner that was started
+			// has been shut down and nothing is reported as loaded
+			mcrt.WaitIdle(true)
+			for _, sv := range w.servers {
+				if sv.closedAt == 0 {
+					mcrt.Fail("C15: not-drained: all requests have finished and all timers have run, runner %s was never shut down", sv.name)
+				}
+			}
+			sched.loadedMu.Lock()
+			n := len(sched.loaded)
+			sched.loadedMu.Unlock()
+			if n != 0 {
+				mcrt.Fail("C15: not-drained: all requests have finished and all timers have run, %d runner(s) still listed as loaded", n)
+			}
+		}
 		mcrt.WaitIdle(false)
 		stop()
 		mcrt.WaitIdle(false)
 	}
 }
+
+// z15Drain: judge the drain clause of C02 at the end of every execution (set by the C02 part)
+var z15Drain bool
 
 func z15Scenarios(thorough bool) []z15Scenario {
 	l := []z15Scenario{
@@ -362,6 +418,7 @@ func z15Scenarios(thorough bool) []z15Scenario {
 		{Name: "unload|ps", Loaded: []string{"a"}, Reqs: []z15Req{{Kind: "unload", A: "a"}, {Kind: "ps"}}},
 		{Name: "generate0-gone", Cap: 2, Reqs: []z15Req{{Kind: "generate0-gone", A: "a"}}},
 		{Name: "generate-gone|generate", Reqs: []z15Req{{Kind: "generate-gone", A: "a"}, {Kind: "generate", A: "a"}}},
+		{Name: "generate-gone-late|generate", Cap: 2, Reqs: []z15Req{{Kind: "generate-gone-late", A: "a"}, {Kind: "generate", A: "a"}}},
 		{Name: "generate|generate", Reqs: []z15Req{{Kind: "generate", A: "a"}, {Kind: "generate", A: "a"}}},
 		{Name: "generate-a|generate-b max1", Env: map[string]string{"OLLAMA_MAX_LOADED_MODELS": "1"}, Reqs: []z15Req{{Kind: "generate", A: "a"}, {Kind: "generate", A: "b"}}},
 		// three models, room for two: the request for the third has to pick a victim (sorts the loaded runners by
@@ -370,6 +427,9 @@ func z15Scenarios(thorough bool) []z15Scenario {
 		{Name: "generate-e|unload-a max2 cpu", CPU: true, Cap: 2, Extra: []string{"e"}, Env: map[string]string{"OLLAMA_MAX_LOADED_MODELS": "2"}, Loaded: []string{"a", "b"}, Reqs: []z15Req{{Kind: "generate", A: "e"}, {Kind: "unload", A: "a"}}},
 		{Name: "generate-e|generate-a max2 cpu", CPU: true, Cap: 2, Extra: []string{"e"}, Env: map[string]string{"OLLAMA_MAX_LOADED_MODELS": "2"}, Loaded: []string{"a", "b"}, Reqs: []z15Req{{Kind: "generate", A: "e"}, {Kind: "generate", A: "a"}}},
 		{Name: "generate-e|ps max2 cpu", CPU: true, Cap: 2, Extra: []string{"e"}, Env: map[string]string{"OLLAMA_MAX_LOADED_MODELS": "2"}, Loaded: []string{"a", "b"}, Reqs: []z15Req{{Kind: "generate", A: "e"}, {Kind: "ps"}}},
+		// a generation that outlasts every timeout of the server (virtual time), alone and next to an unload request
+		{Name: "generate0-long", Cap: 2, Reqs: []z15Req{{Kind: "generate0-long", A: "a"}}},
+		{Name: "generate-long|unload", Cap: 2, Reqs: []z15Req{{Kind: "generate-long", A: "a"}, {Kind: "unload", A: "a"}}},
 		{Name: "chat|unload", Loaded: []string{"a"}, Reqs: []z15Req{{Kind: "chat", A: "a"}, {Kind: "unload", A: "a"}}},
 		{Name: "embed|ps", Reqs: []z15Req{{Kind: "embed", A: "a"}, {Kind: "ps"}}},
 		{Name: "generate-loadfail|ps", LoadFail: true, Reqs: []z15Req{{Kind: "generate", A: "a"}, {Kind: "ps"}}},
@@ -433,12 +493,38 @@ func z15RaceSig(race string) string {
 	return "C15/race/" + strings.Join(names, "~")
 }
 
-func ZZVerifC15() {
-	r := evid.Start("C15", "model_checking")
+// z1Scenarios: the scenarios of the handler part of C01 (requests that use, share, lose and outlive runners)
+var z1Scenarios = []string{"generate0|ps", "generate0-gone", "generate-gone|generate", "generate-gone-late|generate", "generate|generate", "generate-a|generate-b max1",
+	"generate0-long", "generate-long|unload", "chat|unload", "generate-loadfail|generate", "generate-e|generate-a max2 cpu", "generate-e|unload-a max2 cpu",
+	"generate|unload|ps", "chat|chat|ps"}
+
+var z1ThoroughOnly = []string{"generate0|ps", "generate-a|generate-b max1", "generate-e|generate-a max2 cpu", "generate|unload|ps", "chat|chat|ps"}
+
+func ZZVerifC15() { z15Main("C15") }
+
+// ZZVerifC02Handlers is the second part of C02: every handler returns (the request was answered), and once all have
+// returned and the keep-alive periods are over, every runner has been shut down.
+func ZZVerifC02Handlers() { z15Drain = true; z15Main("C02") }
+
+// ZZVerifC01Handlers is the second part of C01: the same server, driven through its HTTP handlers (scheduleRunner,
+// the request contexts net/http would give them), judged by the runner monitors only.
+func ZZVerifC01Handlers() { z15Main("C01") }
+
+func z15Main(id string) {
+	r := evid.Start(id, "model_checking")
 	thorough := evid.Thorough()
 	ztSetupProcess("c15")
 	defer ztCleanupProcess()
 	scs := z15Scenarios(thorough)
+	if id == "C01" || id == "C02" {
+		var sub []z15Scenario
+		for _, s := range scs {
+			if slices.Contains(z1Scenarios, s.Name) && (thorough || !slices.Contains(z1ThoroughOnly, s.Name)) {
+				sub = append(sub, s)
+			}
+		}
+		scs = sub
+	}
 	by := map[string]z15Scenario{}
 	var names []string
 	for _, s := range scs {
@@ -453,6 +539,9 @@ func ZZVerifC15() {
 	bounds[mcrt.Cancel] = 1
 	total := 2
 	budget := 200 * gotime.Second
+	if id == "C01" || id == "C02" {
+		budget = 150 * gotime.Second
+	}
 	if thorough {
 		bounds[mcrt.Preempt] = 2
 		bounds[mcrt.Switch] = 2
@@ -522,8 +611,45 @@ func ZZVerifC15() {
 			}
 			type viol struct{ sig, msg string }
 			var vs []viol
+			if id == "C02" {
+				// a request whose client is still there never got its answer: its handler never returned
+				returned := false
+				for _, l := range res.Log {
+					returned = returned || l == "all requests returned"
+				}
+				if !returned && !res.Horizon && !res.Aborted && len(res.Panics) == 0 {
+					// (a request whose client went away may stay without a reply: "a cancelled request receives at most one")
+					var stuck []string
+					for _, b := range res.Blocked {
+						if strings.HasPrefix(b, "req") && !strings.Contains(strings.SplitN(b, " ", 2)[0], "-gone") {
+							stuck = append(stuck, b)
+						}
+					}
+					if len(stuck) > 0 {
+						vs = append(vs, viol{"C02/handlers/request-never-answered", "C02: a request whose client is still there never received a reply: its handler never returned: " + strings.Join(stuck, ", ") + "; all blocked threads: " + strings.Join(res.Blocked, ", ")})
+					}
+				}
+				for _, f := range res.Failures {
+					if strings.Contains(f, "not-drained") {
+						f = strings.Replace(f, "C15:", "C02:", 1)
+						vs = append(vs, viol{ztSig("C02", f, "handlers"), f})
+					}
+				}
+				res.Failures, res.Races, res.LockRaces, res.Panics = nil, nil, nil, nil
+			}
 			for _, f := range res.Failures {
+				if id == "C01" {
+					// the runner monitors only: used after shut-down, shut down twice, shut down in use
+					if strings.Contains(f, "completion-on-closed-runner") || strings.Contains(f, "shut down twice") || strings.Contains(f, "closed-in-use") {
+						f = strings.Replace(f, "C15:", "C01:", 1)
+						vs = append(vs, viol{ztSig("C01", f, "handlers"), f})
+					}
+					continue
+				}
 				vs = append(vs, viol{ztSig("C15", f, "handlers"), f})
+			}
+			if id == "C01" {
+				res.Races, res.LockRaces, res.Panics = nil, nil, nil
 			}
 			for _, rc := range res.Races {
 				vs = append(vs, viol{z15RaceSig(rc), "C15: data race: " + rc})
@@ -590,6 +716,21 @@ func ZZVerifC15() {
 			sub.NotExhaustive("time budget reached in " + item)
 		}
 	})
+	if id == "C02" {
+		r.Rule("handler part of C02: the scenarios of the handler part of C01 (concurrent generate / chat / unload / ps requests, clients that go away, a runner that dies while loading, three models with room for two, a generation that outlasts every server-side timeout) on one real Server, every schedule within the deviation bounds; every request's handler must return (scheduleRunner got its one reply) and, after all have returned and every keep-alive timer has run, every runner that was started has been shut down and the scheduler lists nothing as loaded. Non-trivial = distinct observation logs.")
+		r.Extra("bounds", fmt.Sprintf("%s; total deviations <= %d (scenarios with quick_total_cap: that value in the quick tier)", bounds.String(), total))
+		r.Extra("scenarios", names)
+		r.Finish()
+		return
+	}
+	if id == "C01" {
+		r.Rule("handler part of C01: for each scenario of concurrent generate / chat / unload / ps requests (incl. clients that go away, a runner that dies while loading, three models with room for two, a generation that outlasts every server-side timeout in virtual time) on one real Server - real scheduleRunner, real Scheduler loops and timers, request contexts as net/http gives them, mock runner - every schedule within the deviation bounds; monitors inside the mock runner: no completion starts on a runner that was shut down, no runner is shut down twice, no runner is shut down while a request whose context has not ended is running on it. Non-trivial = distinct observation logs.")
+		r.Extra("bounds", fmt.Sprintf("%s; total deviations <= %d (scenarios with quick_total_cap: that value in the quick tier)", bounds.String(), total))
+		r.Extra("scenarios", names)
+		r.Assume("a request is in progress until its handler returns or its context ends (a client that went away has released the runner)")
+		r.Finish()
+		return
+	}
 	r.Rule("for each pair (thorough: also triples) of concurrent API requests on one real Server (real Scheduler loops and timers, real store on the controlled FS, mock runner, fake registry) every schedule within the deviation bounds; in every execution a vector-clock happens-before detector checks every access package server makes, in statements of its own, to a field of a struct type it declares or to one of its package-level variables (locations of sync / atomic / channel / context types excepted: they are scheduling points with clocks of their own), and reports conflicting accesses that are unordered or ordered only through the acquisition order of a lock the two do not share; panics in any goroutine and gin-recovered handler panics are captured, and every model /api/ps lists must have had a live runner at some instant of the ps request. Non-trivial = distinct observation logs.")
 	r.Extra("bounds", fmt.Sprintf("%s; total deviations <= %d (scenarios with quick_total_cap: that value in the quick tier)", bounds.String(), total))
 	r.Extra("scenarios", names)
